@@ -8,10 +8,16 @@
    whole when one element fails; and for the four call shapes the function receives exactly the
    supplied arguments in the cases stated - with the three deviations (surplus elements of a spread
    into a fixed function, a spread into a function without parameters, a short spread into a variadic
-   function) exhibited as `_refuted` examples.  Floats, maps, pointers, structs, func adapters,
-   methods and results are compared with native Go by ./check C11 only. *)
+   function) exhibited as `_refuted` examples.  Floats (Conv/FloatConv.v): a float64 handed to an integer
+   parameter arrives as its integer part, taken toward zero and within one of the float, reduced to the
+   parameter's width - for every float whose integer part fits int64 (signed parameters) resp. lies in
+   (-2^63, 2^64) (unsigned ones); outside, and for NaN and the infinities, the amd64 patterns, stated as
+   such; float parameters take numbers only, an int64 through float64(int64), float32 by one more rounding.
+   Maps, pointers, structs, func adapters, methods and results are compared with native Go by ./check C11 only. *)
 From Coq Require Import List ZArith String Bool Lia.
-From Anko Require Import Conv.Convert Conv.CallArgs.
+From Coq Require Import Floats.SpecFloat.
+From Anko Require Import Base.Int64 Base.F64 Conv.Convert Conv.CallArgs.
+From Anko Require Conv.TypedProofs Conv.FloatConv.
 Import ListNotations.
 Open Scope Z_scope.
 
@@ -22,19 +28,7 @@ Theorem nil_becomes_the_zero_value : forall t, conv SNil t = Some (zero t).
 Proof. destruct t; reflexivity. Qed.
 
 Theorem a_converted_value_has_the_parameter_type : forall v t r, t <> TIface -> conv v t = Some r -> type_of r = Some t.
-Proof.
-  intros v t r Ht H. destruct v as [| b | z | bs | l].
-  - rewrite nil_becomes_the_zero_value in H. injection H as <-. destruct t; try reflexivity. exfalso; apply Ht; reflexivity.
-  - destruct t; cbn in H; try discriminate; try (exfalso; apply Ht; reflexivity). injection H as <-. reflexivity.
-  - destruct t; cbn in H; try discriminate; try (exfalso; apply Ht; reflexivity); injection H as <-; reflexivity.
-  - destruct t as [| | n s w | | e]; cbn in H; try discriminate; try (exfalso; apply Ht; reflexivity);
-      repeat match type of H with context [if ?c then _ else _] => destruct c end;
-      try discriminate; try (injection H as <-; reflexivity).
-    destruct bs as [|b [|b2 r2]]; try discriminate; injection H as <-; reflexivity.
-  - destruct t as [| | n s w | | e]; try discriminate; try (exfalso; apply Ht; reflexivity).
-    cbn in H. match type of H with option_map _ ?x = _ => destruct x as [ys|] end; [|discriminate].
-    injection H as <-. reflexivity.
-Qed.
+Proof. exact TypedProofs.conv_type. Qed.
 
 Lemma conv_list_elementwise l e :
   conv (SList l) (TSlice e) = option_map (VSlice e) (Convert.map_opt (fun x => conv x e) l).
@@ -87,6 +81,51 @@ Proof.
   - rewrite Z.mod_small by lia. replace (2 ^ (bits - 1) <=? z) with false by (symmetry; apply Z.leb_gt; lia). reflexivity.
 Qed.
 
+(* floats *)
+Theorem a_float_is_truncated_toward_zero_and_loses_less_than_one : forall s m e v, trunc (S754_finite s m e) = Some v ->
+  (if s then v <= 0 else 0 <= v) /\
+  (0 <= e -> Z.abs v = Zpos m * 2 ^ e) /\
+  (e < 0 -> Z.abs v * 2 ^ (- e) <= Zpos m < (Z.abs v + 1) * 2 ^ (- e)).
+Proof. exact FloatConv.trunc_toward_zero. Qed.
+
+Theorem float_to_signed_parameter : forall n w f v, trunc f = Some v -> min_int64 <= v <= max_int64 ->
+  conv (SFloat f) (TInt n true w) = Some (VInt n true w (wrap true w v)).
+Proof. exact FloatConv.float_to_signed_parameter. Qed.
+
+Theorem float_to_unsigned_parameter : forall n w f v, trunc f = Some v -> 0 <= v < 2 ^ 64 ->
+  conv (SFloat f) (TInt n false w) = Some (VInt n false w (wrap false w v)).
+Proof. exact FloatConv.float_to_unsigned_parameter. Qed.
+
+Theorem negative_float_to_unsigned_parameter : forall n w f v, trunc f = Some v -> - 2 ^ 63 <= v < 0 -> 0 < w <= 64 ->
+  conv (SFloat f) (TInt n false w) = Some (VInt n false w (wrap false w v)).
+Proof. exact FloatConv.negative_float_to_unsigned_parameter. Qed.
+
+(* platform behaviour (amd64), outside what Go defines *)
+Theorem unrepresentable_float_to_signed_parameter : forall n w f,
+  (trunc f = None \/ exists v, trunc f = Some v /\ (v < min_int64 \/ max_int64 < v)) ->
+  conv (SFloat f) (TInt n true w) = Some (VInt n true w (wrap true w min_int64)).
+Proof. exact FloatConv.unrepresentable_float_to_signed_parameter. Qed.
+
+Theorem unrepresentable_float_to_unsigned_parameter : forall n w f,
+  (trunc f = None \/ exists v, trunc f = Some v /\ (v < - 2 ^ 63 \/ 2 ^ 64 <= v)) ->
+  conv (SFloat f) (TInt n false w) = Some (VInt n false w (wrap false w (2 ^ 63))).
+Proof. exact FloatConv.unrepresentable_float_to_unsigned_parameter. Qed.
+
+Theorem float_parameters_take_numbers_only : forall n w,
+  (forall b, conv (SBool b) (TFloat n w) = None) /\ (forall bs, conv (SStr bs) (TFloat n w) = None) /\
+  (forall l, conv (SList l) (TFloat n w) = None).
+Proof. exact FloatConv.float_parameters_take_numbers_only. Qed.
+
+Theorem floats_become_numbers_only : forall f,
+  conv (SFloat f) TString = None /\ conv (SFloat f) TBool = None /\ (forall e, conv (SFloat f) (TSlice e) = None).
+Proof. exact FloatConv.floats_become_numbers_only. Qed.
+
+Theorem float64_parameter_receives_the_float : forall n f, conv (SFloat f) (TFloat n 64) = Some (VFloat n 64 f).
+Proof. exact FloatConv.float64_parameter_receives_the_float. Qed.
+
+Example float_255_9_to_int8 : conv (SFloat (F64.of_bits 4643208355896801690)) (TInt "int8" true 8) = Some (VInt "int8" true 8 (-1)).
+Proof. exact FloatConv.float_to_int8. Qed.
+
 (* call shapes *)
 Theorem fixed_function_plain_call : forall (A : Type) n (pre : list A), n <> 0%nat ->
   build n false pre None = (if Nat.eqb n (List.length pre) then Deliver pre [] else Reject).
@@ -113,3 +152,8 @@ Print Assumptions one_bad_element_fails_the_whole_list.
 Print Assumptions integer_conversion_is_go's.
 Print Assumptions integer_that_fits_is_unchanged.
 Print Assumptions fixed_function_spread_call.
+Print Assumptions a_float_is_truncated_toward_zero_and_loses_less_than_one.
+Print Assumptions float_to_signed_parameter.
+Print Assumptions float_to_unsigned_parameter.
+Print Assumptions negative_float_to_unsigned_parameter.
+Print Assumptions unrepresentable_float_to_unsigned_parameter.
